@@ -3,7 +3,9 @@ import MaddyVerif.Model.Queue
 Model of the queue's on-disk spool and of everything the queue does to it
 (`internal/target/queue/queue.go`: `storeNewMessage`, `updateMetadataOnDisk`, `removeFromDisk`,
 `readDiskQueue`, `openMessage`, `readMessageMeta`, `tryRemoveDanglingFile`, `discardBroken`,
-and the control flow around them in `queueDelivery.Body/Commit/Abort`, `dispatch`, `tryDelivery`).
+and the control flow around them in `queueDelivery.Body/Commit/Abort`, `dispatch`, `tryDelivery`;
+`Queue.deliver` as `deliverErrs`: the per-recipient result of one attempt from the results of the target's
+`AddRcpt`, `Body`/`BodyNonAtomic` and `Commit`).
 Core Lean only.
 
 * A file is `{durable, pending}`: what an fsync has made durable and what was written since.
@@ -32,7 +34,9 @@ Core Lean only.
 The code mirrored is the tree WITH the commit "fix: queue made the meta-data of a new message
 durable before its header and body" (`storeNewMessage` fsyncs header and body before it calls
 `updateMetadataOnDisk`); the old order is kept in Props/C02 as `storeOpsUnfixed` with its
-counterexample.  Not modelled: failing file-system calls, the Windows branch of
+counterexample.  Failing file-system calls: only transient failures of the READ-ONLY calls of the start-up scan and of
+`openMessage` (`Choice.scanFault`, `Choice.openFault`: the entry is skipped and kept); failing mutating calls are
+not modelled.  Not modelled: the Windows branch of
 `updateMetadataOnDisk`, an `Abort` before `Body` (touches no file).
 
 A zero-length body (header-only message): `io.Copy` issues no `Write` call for it, the body file is
@@ -262,6 +266,34 @@ structure St where
   pc   : Pc := .fresh
   g    : Ghost := {}
 
+/-- The read-only file-system calls of the start-up scan (`readDiskQueue`: open + read of `.meta` in
+`readMessageMeta`, `Stat` of header and body) and of `openMessage` (the same `.meta` calls, `Stat` of the body,
+open of the header) that can fail for a TRANSIENT reason (EMFILE, EIO, EACCES, …). -/
+inductive FaultAt | openMeta | readMeta | statHeader | statBody | openHeader
+deriving DecidableEq, Repr
+-- (a failing first `Read` of the header file is swallowed by the `Peek` at the beginning of `textproto.ReadHeader`)
+
+def Disk.metaParses (c : Codec) (d : Disk) : Bool :=
+  match d.metaF with
+  | some f => (c.parse f.content).isSome
+  | none => false
+
+/-- Does one iteration of `readDiskQueue` get as far as this call? -/
+def scanReaches (c : Codec) (d : Disk) : FaultAt → Bool
+  | .openMeta => d.metaF.isSome
+  | .readMeta => d.metaF.isSome
+  | .statHeader => d.metaParses c
+  | .statBody => d.metaParses c && d.header.isSome
+  | .openHeader => false
+
+/-- Does `openMessage` get as far as this call? -/
+def openReaches (c : Codec) (d : Disk) : FaultAt → Bool
+  | .openMeta => d.metaF.isSome
+  | .readMeta => d.metaF.isSome
+  | .statHeader => false
+  | .statBody => d.metaParses c
+  | .openHeader => d.metaParses c && d.body.isSome
+
 inductive Choice
   | accept (rcpts : List Addr) (hdr body : Bytes) (nullFrom : Bool)   -- `Body` is called: `storeNewMessage` begins
   | op                                              -- the next file-system operation is issued
@@ -273,12 +305,46 @@ inductive Choice
   | crash (keep : FKind → Nat)
   | tornCrash (n : Nat) (keep : FKind → Nat)         -- only the first `n` bytes of the next write reach the file
   | restart
+  /-- restart whose start-up scan meets a transient fault at call `w` for this id: "failed to read meta-data,
+  skipping" / "skipping nonstat'able … file" — the entry is SKIPPED AND KEPT, nothing is touched, nothing is
+  scheduled in this run of the process -/
+  | scanFault (w : FaultAt)
+  /-- the time wheel fires the slot and `openMessage` meets a transient fault at call `w`: the error is logged
+  ("read message"), the slot is dropped, nothing is touched -/
+  | openFault (w : FaultAt)
 
 /-- Result of the classification loop of `tryDelivery` for metadata `m` and errors `e`. -/
 def attemptResult (P : Params) (m : SMeta) (e : Errs) : Acc :=
   Queue.classify P.maxTries e m.to ⟨m.triesFn, [], []⟩
 
 def delivered (m : SMeta) (e : Errs) : List Addr := m.to.filter (fun r => (e r).isNone)
+
+/-- One delivery attempt at the target, stage by stage (`Queue.deliver`): the result of `AddRcpt` per recipient,
+whether the delivery object implements `module.PartialDelivery`, the result of `Body` (plain target: one result
+for everybody) or the statuses set by `BodyNonAtomic` (per recipient), and the result of `Commit`. -/
+structure Staged where
+  add      : Errs
+  partialT : Bool
+  bodyAll  : Option Cls
+  bodyEach : Errs
+  commit   : Option Cls
+
+/-- Errors after the body stage: a recipient refused by `AddRcpt` keeps that error, an accepted one has the
+result of `Body` / its own `BodyNonAtomic` status. -/
+def Staged.afterBody (sc : Staged) : Errs :=
+  fun r => if (sc.add r).isSome then sc.add r else if sc.partialT then sc.bodyEach r else sc.bodyAll
+
+/-- The `partialError` that `Queue.deliver` returns for the recipient list `to`: nobody accepted or everybody
+failed in the body stage → `Abort`, the errors so far; otherwise `Commit`, and when THAT fails every accepted
+recipient gets the commit error (`expandToPartialErr`) — for both kinds of target: the message is effective at
+the target only once `Commit` succeeded. -/
+def deliverErrs (to : List Addr) (sc : Staged) : Errs :=
+  let acc := to.filter (fun r => (sc.add r).isNone)
+  if acc.isEmpty then sc.add
+  else if acc.all (fun r => (sc.afterBody r).isSome) then sc.afterBody
+  else match sc.commit with
+    | none => sc.afterBody
+    | some c => fun r => if (sc.add r).isSome then sc.add r else some c
 
 def nextMeta (m : SMeta) (a : Acc) : SMeta := ⟨a.newR, a.newR.map (fun r => (r, a.tries r)), m.nullFrom⟩
 
@@ -381,6 +447,14 @@ def step? (P : Params) (s : St) : Choice → Option St
       | .skip => some { s with pc := .fin }
       | .clean ops => some { s with pc := .clean ops, g := { s.g with removing := true } }
       | .sched => some { s with pc := .sched none }
+    | _ => none
+  | .scanFault w =>
+    match s.pc with
+    | .down => if scanReaches P.codec s.disk w then some { s with pc := .fin } else none
+    | _ => none
+  | .openFault w =>
+    match s.pc with
+    | .sched none => if openReaches P.codec s.disk w then some { s with pc := .fin } else none
     | _ => none
 
 /-- States reachable from the initial one (fresh id, empty disk) by any choices. -/
